@@ -91,6 +91,12 @@ CHECKS = {
    note="Trusted: TLC, the verif-only inspectors. Crash points are the steps of the registration pipeline (driven through conflicts and gates), not arbitrary instruction boundaries; closing of wrapped transports under traffic is checked by C01.",
    technique="TLA+ specs FrpsLifecycle / FrpsPorts model-checked with TLC + trace validation of real frps executions (Trace_FrpsLifecycle, Trace_FrpsPorts)",
    design="4 (C10), 3.1-3.4"),
+ "C14": dict(
+   level="model_checking",
+   text="Liveness models the 1 s watchdogs on both ends in discrete time, the abstract reconnect machine and transcribes the fast back-off function; TLC checks SilentPeerDroppedBy (T+1 ticks), PingingPeerNeverDropped over a grid of timeout / interval pairs and the temporal property that the client ends up registered once the server stays reachable (weak fairness, bounded faults); the real back-off manager is called on every error/success sequence up to length 7 (10) and TLC checks every delay against the interval the specification derives from the history; fault scenarios on real frps / frpc pairs behind a black-holing / cutting relay, with a server stop / refusing server / restart, with invalid heartbeats and with a silent scripted server are measured and TLC checks the bounds with a stated slack (Trace_Liveness).",
+   note="Trusted: TLC, the relay, wall-clock measurements with 1.5 s slack. Heartbeat interval 1 s / timeout 3 s; tcp transport with mux on and off; eventual healing is established as bounded-time instances.",
+   technique="TLA+ spec Liveness model-checked with TLC (safety + liveness) + validation of the real back-off function and of measured fault scenarios (Trace_Liveness)",
+   design="4 (C14), 3.8"),
 }
 
 hooks_commits = subprocess.run("git -C /repo log --format=%h --grep='^verif:' --reverse", shell=True, capture_output=True, text=True).stdout.split()
